@@ -248,7 +248,7 @@ def run_c18(ctx):
                        deadlock_check=False)
     f_exh = pool.submit(ctx.tlc, SPEC, "Gen_Drops.cfg" if quick else "Gen_Drops_t.cfg", module="Gen_Drops", deadlock_check=False, timeout=2400,
                         workers=2)
-    f_sim = pool.submit(ctx.tlc, SPEC, "Sim_Drops.cfg", module="Gen_Drops", simulate="num=%d" % (100 if quick else 1500), depth=20,
+    f_sim = pool.submit(ctx.tlc, SPEC, "Sim_Drops.cfg", module="Gen_Drops", simulate="num=%d" % (150 if quick else 2000), depth=20,
                         deadlock_check=False, timeout=2400, workers=1)
     # every named deviation of the model must break the design-level invariants (vacuity of the invariants)
     f_def = {d: pool.submit(ctx.tlc, SPEC, "MC_Drops_%s.cfg" % d, module="MC_Drops", timeout=1200, workers=2, expect_fail=True, deadlock_check=False)
@@ -264,7 +264,7 @@ def run_c18(ctx):
     futs = [pool.submit(stress)]
     exh = vlib.parse_sim_behaviours(f_exh.result().out)
     sim = vlib.parse_sim_behaviours(f_sim.result().out)
-    if len(exh) < 5000 or len(sim) < (300 if quick else 5000):
+    if len(exh) < 5000 or len(sim) < (200 if quick else 3000):
         raise vlib.Infra("behaviour generation produced too little (%d exhaustive, %d random)" % (len(exh), len(sim)))
     nontrivial = lambda b: any(o["op"] == "Finish" for o in b) and sum(1 for o in b if o["op"] in ("Tell", "RemoteTell")) >= 2
     sel = vlib.sample(rng, exh, 1000 if quick else 20193)
